@@ -477,6 +477,26 @@ def check_property(pid, tier='quick', seed=0, extra=None):
                 elif s.get('status') == 'error':
                     undecided.append('standin %s: %s' % (s['name'], s.get('detail')))
 
+    # known findings carried by the bounded stand-ins (inputs excluded from their families because the real code
+    # violates the property on them): printed on every run when listed in known_findings.txt
+    standin_known = []
+    try:
+        import importlib
+        sys.path.insert(0, os.path.join(VERIF, 'replay'))
+        mod = importlib.import_module('bounded.' + pid.lower())
+        listed = set()
+        for ln in open(os.path.join(VERIF, 'known_findings.txt')):
+            m = re.match(r'finding:\s+property=%s\s+standin=(\S+)' % pid, ln.strip())
+            if m:
+                listed.add(m.group(1))
+        for k in getattr(mod, 'KNOWN', []) or []:
+            if isinstance(k, dict) and k.get('id'):
+                standin_known.append(dict(id=k['id'], listed=k['id'] in listed, clause=k.get('clause', ''), input=k.get('input', ''), observed=k.get('observed', '')))
+    except ModuleNotFoundError:
+        pass
+    except Exception as e:
+        print('NOTE: could not read the stand-in KNOWN list of %s: %r' % (pid, e))
+
     # ---------------- evidence
     obligations = sum(len(r['functions']) for r in results)
     discharged = sum(1 for r in results for v in r['functions'].values() if v['success'])
@@ -506,7 +526,7 @@ def check_property(pid, tier='quick', seed=0, extra=None):
                         canaries=r['canaries'], mutants_recorded=r['mutants_total'],
                         undecided=r['undecided']) for r in results],
             bounded_standins=standins,
-            known_findings=[dict(unit=u, obligation=f['function'], what=sorted(set(x['what'] for x in k))) for (u, f, k) in known_hits],
+            known_findings=[dict(unit=u, obligation=f['function'], what=sorted(set(x['what'] for x in k))) for (u, f, k) in known_hits] + [dict(standin=k['id'], clause=k['clause'], input=k['input'], observed=k['observed']) for k in standin_known],
             explanation='obligations = functions (exec/proof/spec-termination) Verus generated verification conditions for in the assembled units; bounded stand-ins are not counted.',
         ),
         assumptions=trusted + ['extraction rewrites listed per unit under extraction_drops',
@@ -524,6 +544,9 @@ def check_property(pid, tier='quick', seed=0, extra=None):
         print('unit %-14s %-9s verified=%s errors=%s fns=%d canaries=%s wall=%.1fs' % (
             r['unit'], r['status'], r.get('verified'), r.get('errors'), len(r['functions']),
             ','.join('%s:%s' % (c['name'], c['status']) for c in r['canaries']) or '-', r['wall']))
+    for k in standin_known:
+        print('%s: property=%s bounded:%s [%s] %s -> %s' % ('KNOWN-FINDING' if k['listed'] else 'NOTE unlisted stand-in exclusion', pid, k['id'],
+              str(k['clause'])[:120], str(k['input'])[:160].replace('\n', ' '), str(k['observed'])[:160].replace('\n', ' ')))
     for (u, f, k) in known_hits:
         print('KNOWN-FINDING: property=%s %s::%s %s' % (pid, u, f['function'], '; '.join(sorted(set(x['what'] for x in k)))))
     rc = 0
